@@ -207,6 +207,54 @@ PREV = r"Option::expect\(OutputValue::value\(Option::unwrap\(EvalContext::get\(c
 STEP = re.compile(r"^(i64::saturating_add|i64::wrapping_add)\(%s, 1\)$|^AddWithOverflow\(%s, 1\)\.0$|^Add\(%s, 1\)$" % (PREV, PREV, PREV))
 
 
+PSB = "parser::stmt::<impl parser::Parser>::parse_stmt_block"
+STMT_OF_ARM = {"Let": "Stmt::Let", "Loop": "Stmt::Loop", "Repeat": "Stmt::Loop", "While": "Stmt::While", "ResetRandom": "Stmt::ResetRandom",
+               "LParen": "Stmt::DataRow", "Bits": "Stmt::DataRow", "Ident": "Stmt::DataRow", "DecInt": "Stmt::DataRow", "HexInt": "Stmt::DataRow", "BinInt": "Stmt::DataRow", "OctInt": "Stmt::DataRow",
+               "Declare": None, "Eol": None}
+
+
+def stmt_arm_rule(chk, P, only=None):
+    """Every statement the parser accepts is kept: on each path of one trip of the statement loop that
+    goes on to the next statement, the arm of keyword K appends exactly one statement, of K's kind, to the
+    block (declare and blank lines append none) — no statement is dropped, doubled or conditional on what
+    the block already holds."""
+    b = P.body(PSB)
+    if b is None:
+        chk.fail("ANCHOR", "anchor:parse_stmt_block", "parse_stmt_block not found")
+        return
+    cfg = P.cfg(b)
+    heads = []
+    for comp in cfg.sccs():
+        if len(comp) > 1:
+            cs = set(comp)
+            heads += [x for x in comp if any(p_ not in cs for p_ in b.preds(x))]
+    heads = [h for h in heads if b.term(h)["t"] == "call" and callee_name(b.term(h))[0] == "parser::Parser::peek"]
+    if not chk.anchor("statement loop header (peek)", len(heads) == 1):
+        return
+    per = {}
+    for fs, eff, how in tab.iteration_table(P, b, heads[0], effects=lambda nm: nm == "std::vec::Vec::push"):
+        if how != "back":
+            continue
+        tok = [f[1] for f in fs if f[0] == "variant(Parser::peek(self))"]
+        if not tok:
+            continue
+        pushes = tuple(re.sub(r"\{.*", "", e[len("Vec::push(Vec::new(), "):]) for e in eff)
+        for k in tok[0]:
+            per.setdefault(k, set()).add(pushes)
+    n = 0
+    for k, want in sorted(STMT_OF_ARM.items()):
+        if only is not None and k not in only:
+            continue
+        n += 1
+        exp = {(want,)} if want else {()}
+        chk.require(per.get(k) == exp, "GTE", "GTE:stmt-arm:%s:appends-exactly-its-statement" % k, "every continuing path of the %s arm appends %s" % (k, want or "nothing"),
+                    "the %s arm appends %s on its continuing paths (expected exactly %s): a statement can be dropped, doubled or made conditional" % (k, sorted(per.get(k, set())), sorted(exp)))
+    if only is None:
+        extra = sorted(k for k in per if k not in STMT_OF_ARM)
+        chk.require(not extra, "GTE", "GTE:stmt-arm:no-other-continuing-arm", "", "arms %s continue the statement loop" % extra)
+    chk.floor("GTE", "statement arms", n, 1)
+
+
 def end_is_final(chk, P, prefix=""):
     """Once the interpreter has returned Ok(None) it keeps doing so without any effect: the only
     Ok(None) exit is in the fetch state on stmt_iter.next() == None, with no other effect and no state
@@ -375,6 +423,7 @@ def run(chk, ctx):
 
 
 def supporting(chk, P):
+    stmt_arm_rule(chk, P)
     # FramedMap discipline
     st = P.body(FM + "set")
     if chk.anchor("FramedMap::set", st):
